@@ -609,6 +609,18 @@ class Body:
         rest = [p["n"] for p in c["p"][best[0]:] if isinstance(p, dict) and "n" in p]
         return best[1] + ("." + ".".join(rest) if rest else "")
 
+    def arg_name(self, op):
+        """user-level name of the place an operand denotes or (for `&x` / `&mut x` temporaries) refers to"""
+        pl = op.get("move") or op.get("copy")
+        if pl is None:
+            return ""
+        c = self.canon_place(pl)
+        if not c["p"]:
+            d = self.single_def(c["l"])
+            if d and d[2] == "assign" and d[3]["k"] in ("ref", "rawptr"):
+                return self.place_name(d[3]["place"])
+        return self.place_name(c)
+
     def calls(self):
         for bi, b in enumerate(self.blocks):
             if b["cleanup"]:
